@@ -678,7 +678,7 @@ impl Property for C18 {
         "exploration"
     }
     fn rule(&self) -> String {
-        "decider builds a graph (2..14 vertices; 15..26 in half of the annealer runs, ids with holes, density 0..1, vec or hash backend), a random initial decomposition and a history of 1..60 operations (leaf swap, local swap, subtree move, cached width/score query, clone-and-continue) whose internal random choices are decider draws through the existing `impl Rng` seam; or an annealer run with decider-chosen parameters; or rank_decomp through the ambient-RNG seam. Non-trivial: >=4 vertices, >=3 structural moves of >=2 kinds and a cached query between two moves (history); >=4 vertices and >=1 edge (annealer). Distinct by (scenario digest, event digest).".into()
+        "decider builds a graph (2..14 vertices; 15..26 in half of the annealer runs, ids with holes, density 0..1, vec or hash backend), a random initial decomposition and a history of 1..60 operations (leaf swap, local swap, subtree move, cached width/score query, clone-and-continue) whose internal random choices are decider draws through the existing `impl Rng` seam; or an annealer run with decider-chosen parameters; or rank_decomp through the ambient-RNG seam. Operations also include Fork (clone, put one copy on a shelf, continue on the other) and QueryShelved (a shelved copy must be structurally unchanged and report the brute-force width and score); in a third of the history runs the checker is passive (structure only between the scenario's own queries, no clones, queries judged against brute force alone). Vertex numberings: dense, small holes, starting far from 0, strides up to 70 (ids beyond 64 / 128 / 1000). Sub-batch small_long: 3..5 vertices, 150..400 operations. Non-trivial: >=4 vertices, >=3 structural moves of >=2 kinds and a cached query between two moves (history); >=4 vertices and >=1 edge (annealer). Distinct by (scenario digest, event digest).".into()
     }
     fn assumptions(&self) -> Vec<String> {
         vec![
@@ -695,6 +695,9 @@ impl Property for C18 {
             SubBatch { name: "history", quick: 60_000, thorough: 4_000_000 },
             SubBatch { name: "annealer", quick: 40_000, thorough: 1_200_000 },
             SubBatch { name: "rank_decomp", quick: 400, thorough: 20_000 },
+            // tiny trees, long histories: branches that need an unlucky streak of draws on a tree
+            // with very few legal moves (3..5 leaves)
+            SubBatch { name: "small_long", quick: 6_000, thorough: 200_000 },
         ]
     }
     fn expected_probes(&self) -> Vec<&'static str> {
@@ -725,6 +728,8 @@ impl Property for C18 {
                 // graphs: only there can an accepted move lower the one and raise the other
                 _ => d.range("n", 15, 26) as usize,
             }
+        } else if sub == "small_long" {
+            3 + d.choose("n.small", 3)
         } else {
             match d.choose("n.kind", 10) {
                 0 => 2,
@@ -771,8 +776,8 @@ impl Property for C18 {
             }
         }
         let mode = match sub {
-            "history" => {
-                let len = 1 + d.choose("len", 60);
+            "history" | "small_long" => {
+                let len = if sub == "small_long" { 150 + d.choose("len.long", 250) } else { 1 + d.choose("len", 60) };
                 // per-run operation mix (swarm style)
                 let w: Vec<usize> = (0..8).map(|_| d.choose("w", 5)).collect();
                 let tot: usize = w.iter().sum::<usize>().max(1);
@@ -814,7 +819,7 @@ impl Property for C18 {
             },
             _ => Mode::RankDecomp,
         };
-        let passive = sub == "history" && d.coin("passive", 1, 3);
+        let passive = (sub == "history" || sub == "small_long") && d.coin("passive", 1, 3);
         Sc { ids, edges, hash_backend: d.coin("backend", 1, 2), mode, passive }
     }
 
